@@ -35,6 +35,15 @@ type c11Case struct {
 	S2C      int    `json:"s2c"`
 	Batch    string `json:"batch"` // ones | small | over10 | mixed
 	Poll     string `json:"poll"`  // before | while | trickle | mixed
+	// Tail > 0: at the end of the history the backend sends Tail more messages
+	// while no poll is outstanding and closes gracefully; the client then
+	// polls until it is told the session is closed.
+	Tail int `json:"tail,omitempty"`
+	// CloseRace: instead of the two-way history, the client posts its messages
+	// to a backend that takes SlowMs per message and posts close right behind
+	// the last data post.
+	CloseRace bool `json:"close_race,omitempty"`
+	SlowMs    int  `json:"slow_ms,omitempty"`
 }
 
 type c11Spec struct {
@@ -59,9 +68,12 @@ type c11Result struct {
 	PollShape     string            `json:"poll_shape"`
 	SizeClasses   map[string]int    `json:"size_classes"`
 	JSONClasses   map[string]int    `json:"json_classes,omitempty"`
-	Injected      int               `json:"injected"`   // messages legitimately changed by injection
-	KeysAdded     int               `json:"keys_added"` // header keys added by injection
-	Unchanged     int               `json:"unchanged"`  // messages required to be byte-identical and found so
+	TailCarried   int               `json:"tail_carried"` // messages delivered by polls after the backend's final burst and close
+	TailPolls     int               `json:"tail_polls"`
+	CloseRaceMsgs int               `json:"close_race_msgs"` // messages that reached the slow backend ahead of the close
+	Injected      int               `json:"injected"`        // messages legitimately changed by injection
+	KeysAdded     int               `json:"keys_added"`      // header keys added by injection
+	Unchanged     int               `json:"unchanged"`       // messages required to be byte-identical and found so
 	Violations    []string          `json:"violations,omitempty"`
 	Timeout       bool              `json:"timeout"` // a harness wait expired (to be confirmed by a solo re-run)
 	Panic         string            `json:"panic,omitempty"`
@@ -444,6 +456,10 @@ func c11Run(b *shimBackend, c c11Case) (res c11Result) {
 	panicked := func(p string) { vmu.Lock(); res.Panic = p; vmu.Unlock() }
 	rng := rand.New(rand.NewSource(c.Seed))
 	h := shimProxy(nil, b.addr, "shim", false, c.Inject)
+	if c.CloseRace {
+		c11CloseRace(b, c, rng, h, &res, violate, timedOut)
+		return
+	}
 	version := c.Version
 	if version < 0 {
 		version = 0
@@ -827,10 +843,170 @@ func c11Run(b *shimBackend, c c11Case) (res c11Result) {
 			}
 		}
 		res.PollShape += c11Shape(s.polls) + ";"
+		if c.Tail > 0 && len(res.Violations) == 0 {
+			c11Tail(h, s, c, version, rng, &res, violate, timedOut)
+			continue
+		}
 		// tidy up (not judged here: C12)
 		shimPost(h, "close", nil, shimIDBody(s.id), shimBoundCall)
 	}
 	return res
+}
+
+// c11Tail: the backend sends a last burst while nobody polls and closes
+// gracefully; whatever it sent before closing has to come out of the polls
+// that follow, in order, before they report the session closed. Polls are
+// issued only after the agent had the chance to notice the close (the worst
+// moment for anything that short-cuts on "connection gone").
+func c11Tail(h http.Handler, s *c11Sess, c c11Case, version int, rng *rand.Rand, res *c11Result, violate func(sig, msg string), timedOut func()) {
+	var tail []shimMsg
+	for i := 0; i < c.Tail; i++ {
+		if version == 1 && rng.Intn(3) == 0 {
+			tail = append(tail, shimMsg{websocket.BinaryMessage, c11Binary(rng, rng.Intn(300), false)})
+		} else {
+			tail = append(tail, shimMsg{websocket.TextMessage, c11Text(rng, rng.Intn(300))})
+		}
+	}
+	sendDone := make(chan struct{})
+	go func() {
+		defer close(sendDone)
+		for _, m := range tail {
+			if s.bc.send(m) != nil {
+				return
+			}
+		}
+		s.bc.closeNow()
+	}()
+	select {
+	case <-sendDone:
+	case <-time.After(10 * time.Second):
+		timedOut()
+		violate("C11:tail:backend-could-not-send", "the backend could not write its final burst within 10s")
+		return
+	}
+	var got []shimMsg
+	var sizes []int
+	closedSeen := false
+	for n := 0; n < len(tail)+5 && !closedSeen; n++ {
+		s.bc.settled(len(tail) - len(got))
+		a := shimPost(h, "poll", nil, shimIDBody(s.id), shimBoundPoll)
+		res.TailPolls++
+		switch {
+		case a.Panic != "":
+			violate("C11:panic:"+shimSlug(a.Panic), "poll panicked: "+a.Panic)
+			return
+		case !a.Answered:
+			timedOut()
+			violate("C11:poll-unanswered", "poll after the backend closed not answered within 30s")
+			return
+		case a.Status == 200:
+			ms, err := shimDecodePoll(a.Body, version)
+			if err != nil {
+				violate("C11:server-to-client:undecodable", err.Error())
+				return
+			}
+			got = append(got, ms...)
+			sizes = append(sizes, len(ms))
+		case a.Status == 400:
+			closedSeen = true
+		default: // 408: keep polling
+		}
+	}
+	res.TailCarried += len(got)
+	if sig, msg := c11Compare(tail, got, func(_ int, a, g shimMsg) string { return c11Same(a, g) }); sig != "" {
+		violate("C11:server-to-client-before-backend-close:"+sig, fmt.Sprintf("session %s (v%d): the backend sent a final burst of %d messages with no poll outstanding and closed; poll replies %v, then closed=%v: %s", s.id, version, len(tail), sizes, closedSeen, msg))
+	}
+}
+
+// c11CloseRace: data posts to a slowly reading backend, then close right
+// behind them. Every message of a post that was answered 200 before the
+// close was posted has to reach the backend, in order, followed by a normal
+// websocket closure.
+func c11CloseRace(b *shimBackend, c c11Case, rng *rand.Rand, h http.Handler, res *c11Result, violate func(sig, msg string), timedOut func()) {
+	token := c.ID + "-cr"
+	id, bc, a := shimOpen(h, b, token, "/socket/"+c.ID, 1, [2]string{"X-Verif-Slowread", strconv.Itoa(c.SlowMs)})
+	if id == "" || bc == nil {
+		violate("C11:open-failed", fmt.Sprintf("open answered %d %s", a.Status, shimTrunc(string(a.Body), 200)))
+		return
+	}
+	defer b.forget(token)
+	sizes := c11Sizes(rng, c.Sizes, c.C2S)
+	var sent []shimMsg
+	for i, sz := range sizes {
+		m := shimMsg{websocket.TextMessage, c11Text(rng, sz)}
+		if (c.Kinds == "mixed" && rng.Intn(2) == 0) || c.Kinds == "binary" {
+			m = shimMsg{websocket.BinaryMessage, c11Binary(rng, sz, i == 0 && sz >= 256)}
+		}
+		sent = append(sent, m)
+		res.SizeClasses[c11SizeClass(sz)]++
+	}
+	for at := 0; at < len(sent); {
+		n := 1
+		switch c.Batch {
+		case "small":
+			n = 1 + rng.Intn(5)
+		case "over10":
+			n = 11 + rng.Intn(20)
+		case "mixed":
+			n = 1 + rng.Intn(25)
+		}
+		if at+n > len(sent) {
+			n = len(sent) - at
+		}
+		var items []map[string]interface{}
+		for _, m := range sent[at : at+n] {
+			items = append(items, map[string]interface{}{"id": id, "msg": shimWire(m, 1)})
+		}
+		body, _ := json.Marshal(items)
+		d := shimPost(h, "data", nil, body, 120*time.Second)
+		res.Posts++
+		if n > res.MaxPost {
+			res.MaxPost = n
+		}
+		if n > 10 {
+			res.PostsOver10++
+		}
+		if d.Panic != "" {
+			violate("C11:panic:"+shimSlug(d.Panic), "data post panicked: "+d.Panic)
+			return
+		}
+		if !d.Answered {
+			timedOut()
+			violate("C11:data-post-unanswered", fmt.Sprintf("data post of %d messages to a backend reading one message per %d ms not answered within 120s", n, c.SlowMs))
+			return
+		}
+		if d.Status != 200 {
+			violate(fmt.Sprintf("C11:data-post-rejected:%d", d.Status), fmt.Sprintf("well-formed data post on an open session answered %d", d.Status))
+			return
+		}
+		at += n
+	}
+	cl := shimPost(h, "close", nil, shimIDBody(id), 120*time.Second)
+	if cl.Panic != "" || !cl.Answered || cl.Status != 200 {
+		violate("C11:close-after-data:close-failed", fmt.Sprintf("close right behind the data posts answered %d (answered=%v panic=%q)", cl.Status, cl.Answered, cl.Panic))
+		return
+	}
+	bound := 30*time.Second + time.Duration(len(sent)*c.SlowMs*3)*time.Millisecond
+	if !bc.waitClosed(bound) {
+		timedOut()
+		violate("C11:close-after-data:backend-not-closed", fmt.Sprintf("%s after close answered 200 the backend still has not seen the websocket close", bound))
+		return
+	}
+	got := bc.received()
+	res.C2S += len(got)
+	res.CloseRaceMsgs += len(got)
+	for _, m := range got {
+		res.Bytes += int64(len(m.D))
+	}
+	bc.mu.Lock()
+	cerr := bc.cerr
+	bc.mu.Unlock()
+	what := fmt.Sprintf("%d messages in %d posts (all answered 200) to a backend reading one message per %d ms, then close (answered 200)", len(sent), res.Posts, c.SlowMs)
+	if sig, msg := c11Compare(sent, got, func(_ int, a, g shimMsg) string { return c11Same(a, g) }); sig != "" {
+		violate("C11:client-to-server-before-close:"+sig, fmt.Sprintf("%s: %s; the backend's connection ended with %q", what, msg, cerr))
+	} else if !strings.Contains(cerr, "close 1000") {
+		violate("C11:close-after-data:not-a-normal-closure", fmt.Sprintf("%s: all messages arrived but the connection ended with %q instead of a normal closure (1000)", what, cerr))
+	}
 }
 
 // c11Shape summarises batch sizes as a multiset signature "1x3,7x1,…".
